@@ -91,7 +91,7 @@ def main():
     # call histories of the documented workflow (spec/Workflow.tla): repeated prepare()/compute() are no-ops, a call changes the data of
     # its own object only, and whatever the history, the finished object holds the data of the canonical linear order
     import workflow
-    workflow.attach(c, {"H"}, 'Hamiltonian')
+    workflow.attach(c, {"H", "HP"}, 'Hamiltonian / Hamiltonian part')
     c.finish()
 
 
